@@ -416,9 +416,8 @@ def lint_directory_bounded(ctx):
     n = 150 if ctx.get("tier", "quick") == "quick" else 1500
     rng = random.Random(7919 * int(ctx.get("seed", 0)) + 141)
     name = "custom:c14-lint-directory-bounded/lint_directory"
-    repo = ctx["repo"]
-    if repo not in sys.path:
-        sys.path.insert(0, repo)
+    from pyvc import native as _native
+    _native._ensure_repo_on_path()  # `import src` must be the tree under verification ($VERIF_REPO), not an installed copy
     base = tempfile.mkdtemp(prefix="c14lint_")
     cases = ignored_cases = 0
     try:
